@@ -818,6 +818,9 @@ func (ex *Exec) runAt(fr *frame, st *State, b *ssa.BasicBlock, idx int, stop *ss
 		var next *ssa.BasicBlock
 		for i := idx; i < len(b.Instrs); i++ {
 			ins := b.Instrs[i]
+			if st.G.IsFalse() {
+				return nil // the path condition collapsed: nothing can reach here
+			}
 			ex.checkBudget()
 			ex.FnInstrs[fr.fn.String()]++
 			switch x := ins.(type) {
